@@ -1,6 +1,7 @@
 import Model.C19
 import Proofs.C19
 import Proofs.C19.Extra
+import Proofs.C19.Sort
 /-!
 # C19 — property theorems (statements only; proofs live in `Proofs/C19.lean`, `Proofs/C19/*.lean`)
 
@@ -32,38 +33,80 @@ theorem removeVersion_addVersion (v : Nat) (k : Key) : removeVersion v (addVersi
 example : addVersion 1 [50, 64, 97] = [49, 64, 50, 64, 97] ∧ addVersion 12 [97] ≠ addVersion 1 [50, 64, 97] := by
   simp [addVersion, versionPrefix, digits, atSign]
 
+/-- Clients whose stacks differ in one version layer above a shared lower part (whatever private
+layers they put on top) never name the same backend entry: no key of one client aliases any key of
+the other, so neither can read, overwrite or delete what the other stored. (A run-level theorem for
+two interleaved clients is not proved; their interleavings are covered by the correspondence check
+and the judge, one map-with-expiry per client.) -/
+theorem split_clients_disjoint_backend_keys (up up' low : List Layer) (a b : Nat) (hab : a ≠ b) (k k' : Key) :
+    phys (up ++ .ver a :: low) k ≠ phys (up' ++ .ver b :: low) k' :=
+  PfC19.phys_split_disjoint up up' low a b hab k k'
+
+example : phys ([.lru 2 5 [], .ver 1] ++ .ver 12 :: [.snap, .ver 7]) [97] = [55, 64, 49, 50, 64, 49, 64, 97] := by
+  simp [phys, addVersion, versionPrefix, digits, atSign]
+
 /-! ### What the judge remembers (the meaning of "most recently stored") -/
 
-/-- A store makes its value the remembered one, with the TTL deadline on both clocks. -/
-theorem judge_records_store (cfg : JCfg) (j : JSt) (k : Key) (v : Bytes) (ttl : Int) (obs : Obs) :
-    (jstep cfg j (.set k v ttl) obs).1.spec.get k = .present v (j.V + ttl) (j.W + ttl) ∧
-    ∀ k', k' ≠ k → (jstep cfg j (.set k v ttl) obs).1.spec.get k' = j.spec.get k' :=
+/-- A store makes its value the remembered one, with the TTL deadline on both clocks and no back-fill. -/
+theorem judge_records_store (cfg : JCfg) (held : List Key) (j : JSt) (k : Key) (v : Bytes) (ttl : Int) (obs : Obs) :
+    (jstep cfg held j (.set k v ttl) obs).1.spec.get k = .present v (j.V + ttl) (j.W + ttl) none ∧
+    ∀ k', k' ≠ k → (jstep cfg held j (.set k v ttl) obs).1.spec.get k' = j.spec.get k' :=
   ⟨by simp [jstep, PfC19.get_aPut], fun k' h => by simp [jstep, PfC19.get_aPut, h]⟩
 
 /-- A delete is remembered as such. -/
-theorem judge_records_delete (cfg : JCfg) (j : JSt) (k : Key) (obs : Obs) :
-    (jstep cfg j (.del k) obs).1.spec.get k = .deleted :=
+theorem judge_records_delete (cfg : JCfg) (held : List Key) (j : JSt) (k : Key) (obs : Obs) :
+    (jstep cfg held j (.del k) obs).1.spec.get k = .deleted :=
   by simp [jstep, PfC19.get_aPut]
 
 /-- A refused `Add` changes nothing; an accepted one is a store. -/
-theorem judge_records_add (cfg : JCfg) (j : JSt) (k : Key) (v : Bytes) (ttl : Int) :
-    (jstep cfg j (.add k v ttl) (.added false)).1 = j ∧
-    (jstep cfg j (.add k v ttl) (.added true)).1.spec.get k = .present v (j.V + ttl) (j.W + ttl) :=
+theorem judge_records_add (cfg : JCfg) (held : List Key) (j : JSt) (k : Key) (v : Bytes) (ttl : Int) :
+    (jstep cfg held j (.add k v ttl) (.added false)).1 = j ∧
+    (jstep cfg held j (.add k v ttl) (.added true)).1.spec.get k = .present v (j.V + ttl) (j.W + ttl) none :=
   ⟨rfl, by simp [jstep, PfC19.get_aPut]⟩
 
+/-- The outcome of `Add` is judged: it has to be refused exactly when the last stored entry of the
+key is within its TTL on the backend's clock. -/
+theorem judge_checks_add_outcome (cfg : JCfg) (held : List Key) (j : JSt) (k : Key) (v : Bytes) (ttl : Int) (ok : Bool) :
+    (jstep cfg held j (.add k v ttl) (.added ok)).2 = [] ↔ ok = !liveV j k := by
+  cases ok <;> cases h : liveV j k <;> simp [jstep, h]
+
+/-- A returned read re-arms the in-memory deadline only when the entry came from below: if the
+in-memory layer holds the key within its deadline (`servedLocally`) the judge's entry is left as it
+is — reading does not prolong the retention; otherwise, if the entry is within its TTL, the
+in-memory layer has taken a copy whose deadline is now + default retention, and the time of that
+back-fill is remembered. -/
+theorem judge_rearms_only_on_backfill (cfg : JCfg) (held : List Key) (j : JSt) (keys : List Key) (k : Key) (v val : Bytes)
+    (dV dW : Int) (fl : Option Int) (e : Bool) (hp : j.spec.get k = .present val dV dW fl) :
+    (servedLocally cfg held j.W dW k = true →
+      (jstep cfg held j (.get keys) (.got [(k, v)] e)).1.spec.get k = .present val dV dW fl) ∧
+    (cfg.hasLru = true → servedLocally cfg held j.W dW k = false → j.V < dV →
+      (jstep cfg held j (.get keys) (.got [(k, v)] e)).1.spec.get k = .present val dV (j.W + cfg.dttl) (some j.W)) := by
+  constructor
+  · intro h
+    simp [jstep, refill, hp, h]
+  · intro h1 h2 h3
+    simp [jstep, refill, hp, h1, h2, h3, PfC19.get_aPut]
+
 /-- The judge is not trivially satisfied: a wrong value, a read after delete and a read after the
-deadline are all rejected. -/
+deadline are all rejected; a copy the in-memory layer does not hold (`held = []`) does not excuse a
+read after the TTL; and an in-memory hit at time 2 does NOT prolong the entry (stored at 0 with TTL
+3, retention 5): returning it at time 4 is rejected ("sliding expiration"). -/
 example :
-    (jstep ⟨false, 0⟩ ⟨[([1], .present [7] 5 5)], 0, 0⟩ (.get [[1]]) (.got [([1], [8])] false)).2 = ["read-not-last-stored"] ∧
-    (jstep ⟨true, 9⟩ ⟨[([1], .deleted)], 0, 0⟩ (.get [[1]]) (.got [([1], [8])] false)).2 = ["read-after-delete"] ∧
-    (jstep ⟨true, 9⟩ ⟨[([1], .present [7] 5 6)], 5, 6⟩ (.get [[1]]) (.got [([1], [7])] false)).2 = ["read-after-deadline"] ∧
-    (jstep ⟨true, 9⟩ ⟨[([1], .present [7] 5 6)], 5, 5⟩ (.get [[1]]) (.got [([1], [7])] false)).2 = [] := by
+    (jstep ⟨false, 0, []⟩ [] ⟨[([1], .present [7] 5 5 none)], 0, 0⟩ (.get [[1]]) (.got [([1], [8])] false)).2 = ["read-not-last-stored"] ∧
+    (jstep ⟨true, 9, []⟩ [[1]] ⟨[([1], .deleted)], 0, 0⟩ (.get [[1]]) (.got [([1], [8])] false)).2 = ["read-after-delete"] ∧
+    (jstep ⟨true, 9, []⟩ [[1]] ⟨[([1], .present [7] 5 6 none)], 5, 6⟩ (.get [[1]]) (.got [([1], [7])] false)).2 = ["read-after-deadline"] ∧
+    (jstep ⟨true, 9, []⟩ [[1]] ⟨[([1], .present [7] 5 6 none)], 5, 5⟩ (.get [[1]]) (.got [([1], [7])] false)).2 = [] ∧
+    (jstep ⟨true, 9, []⟩ [] ⟨[([1], .present [7] 5 6 none)], 5, 5⟩ (.get [[1]]) (.got [([1], [7])] false)).2 = ["read-after-deadline"] ∧
+    (let j1 := (jstep ⟨true, 5, []⟩ [[1]] ⟨[([1], .present [7] 3 3 none)], 2, 2⟩ (.get [[1]]) (.got [([1], [7])] false)).1
+     j1.spec.get [1] = .present [7] 3 3 none ∧
+     (jstep ⟨true, 5, []⟩ [[1]] { j1 with V := 4, W := 4 } (.get [[1]]) (.got [([1], [7])] false)).2 = ["read-after-deadline"]) := by
   decide
 
 /-! ### Reads through any stack -/
 
 /-- The judge — the executable statement of the property, the same function that is run on the
-implementation's observations — raises nothing on any run of the model. -/
+implementation's observations — raises nothing on any run of the model (reads: value, deletion,
+deadlines; `Add`: outcome). -/
 theorem judge_accepts_every_run (cd : Codec) (hcd : ∀ b, cd.dec (cd.enc b) = some b) (ls : List Layer)
     (h1 : oneLru ls) (h2 : emptyLrus ls) (v0 w0 : Int) (ops : List (Op × List (List Key)))
     (hok : ∀ o ∈ ops, OpOk o.1) :
@@ -76,10 +119,10 @@ theorem read_is_last_stored (cd : Codec) (hcd : ∀ b, cd.dec (cd.enc b) = some 
     (h1 : oneLru ls) (h2 : emptyLrus ls) (v0 w0 : Int) (ops : List (Op × List (List Key)))
     (hok : ∀ o ∈ ops, OpOk o.1) (keys : List Key) (hs : List (List Key)) :
     ∀ kv ∈ (final cd ls v0 w0 ops).1.read cd keys hs,
-      kv.1 ∈ keys ∧ ∃ dV dW, (final cd ls v0 w0 ops).2.spec.get kv.1 = .present kv.2 dV dW :=
+      kv.1 ∈ keys ∧ ∃ dV dW fl, (final cd ls v0 w0 ops).2.spec.get kv.1 = .present kv.2 dV dW fl :=
   fun kv hkv =>
-    let ⟨hk, dV, dW, hg, _⟩ := PfC19.run_read cd hcd ls h1 h2 v0 w0 ops hok keys hs kv hkv
-    ⟨hk, dV, dW, hg⟩
+    let ⟨hk, dV, dW, fl, hg, _⟩ := PfC19.run_read cd hcd ls h1 h2 v0 w0 ops hok keys hs kv hkv
+    ⟨hk, dV, dW, fl, hg⟩
 
 /-- A deleted (or never stored) key is not returned. -/
 theorem no_read_after_delete (cd : Codec) (hcd : ∀ b, cd.dec (cd.enc b) = some b) (ls : List Layer)
@@ -89,50 +132,111 @@ theorem no_read_after_delete (cd : Codec) (hcd : ∀ b, cd.dec (cd.enc b) = some
     ∀ kv ∈ (final cd ls v0 w0 ops).1.read cd keys hs, kv.1 ≠ k :=
   PfC19.run_no_read_after_delete cd hcd ls h1 h2 v0 w0 ops hok keys hs k hd
 
-/-- An entry is not returned once the backend's clock has passed its TTL deadline `dV` and the
-in-memory layer's clock has passed `dW` = the later of its TTL deadline and the latest back-fill
-(a read that returned it while its TTL was running) plus the default retention; without an
-in-memory layer `dV` alone decides. -/
+/-- Two clocks (backend and in-memory layer may be stepped separately): an entry is not returned
+once the backend's clock has passed its TTL deadline `dV` and either the in-memory layer does not
+hold the key at all or that layer's clock has passed `dW` (= the store's TTL deadline, or the
+latest back-fill + default retention); without an in-memory layer `dV` alone decides. -/
 theorem no_read_after_deadline (cd : Codec) (hcd : ∀ b, cd.dec (cd.enc b) = some b) (ls : List Layer)
     (h1 : oneLru ls) (h2 : emptyLrus ls) (v0 w0 : Int) (ops : List (Op × List (List Key)))
     (hok : ∀ o ∈ ops, OpOk o.1) (keys : List Key) (hs : List (List Key)) (k : Key) (v : Bytes) (dV dW : Int)
-    (hp : (final cd ls v0 w0 ops).2.spec.get k = .present v dV dW) (hV : dV ≤ (final cd ls v0 w0 ops).2.V)
-    (hW : (cfgOf ls).hasLru = false ∨ dW ≤ (final cd ls v0 w0 ops).2.W) :
+    (fl : Option Int)
+    (hp : (final cd ls v0 w0 ops).2.spec.get k = .present v dV dW fl) (hV : dV ≤ (final cd ls v0 w0 ops).2.V)
+    (hW : holds (final cd ls v0 w0 ops).1.layers k = false ∨ dW ≤ (final cd ls v0 w0 ops).2.W) :
     ∀ kv ∈ (final cd ls v0 w0 ops).1.read cd keys hs, kv.1 ≠ k :=
-  PfC19.run_no_read_after_deadline cd hcd ls h1 h2 v0 w0 ops hok keys hs k v dV dW hp hV hW
+  PfC19.run_no_read_after_deadline cd hcd ls h1 h2 v0 w0 ops hok keys hs k v dV dW fl hp hV hW
 
-/-- On one clock (backend and in-memory layer advance together) the retention cannot be stretched by
-reading: nothing is returned `max defaultTTL 0` or more after the TTL of its last store ran out
-(`dV` = time of the store + TTL). -/
+/-- **The property's literal deadline.** On one clock, an entry that has not been back-filled since
+it was stored (`fill = none`: every copy, in the backend and in the in-memory layer, is the store's
+own) is returned only within its TTL: `V < dV`, where `dV` = time of the store + TTL
+(`judge_records_store`). In particular never after the later of its TTL and the default retention
+counted from the store: for any `t`, `ttl` with `dV = t + ttl`, `V < t + max ttl defaultTTL`.
+Reading it from the in-memory layer does not prolong it. -/
+theorem no_read_after_ttl_without_backfill (cd : Codec) (hcd : ∀ b, cd.dec (cd.enc b) = some b) (ls : List Layer)
+    (h1 : oneLru ls) (h2 : emptyLrus ls) (v0 w0 : Int) (ops : List (Op × List (List Key)))
+    (hok : ∀ o ∈ ops, OpOk o.1) (hc : ∀ o ∈ ops, Coupled o.1) (keys : List Key) (hs : List (List Key)) :
+    ∀ kv ∈ (final cd ls v0 w0 ops).1.read cd keys hs, ∀ dV dW,
+      (final cd ls v0 w0 ops).2.spec.get kv.1 = .present kv.2 dV dW none →
+      (final cd ls v0 w0 ops).2.V < dV ∧
+      ∀ t ttl, dV = t + ttl → (final cd ls v0 w0 ops).2.V < t + max ttl (cfgOf ls).dttl := by
+  intro kv hkv dV dW hp
+  have h := PfC19.run_ttl_without_backfill cd hcd ls h1 h2 v0 w0 ops hok hc keys hs kv hkv dV dW hp
+  refine ⟨h, fun t ttl he => ?_⟩
+  have := Int.le_max_left ttl (cfgOf ls).dttl
+  omega
+
+/-- **The general deadline.** On one clock, whatever a read returns is within its TTL, or the
+in-memory layer took it from the layers below at a time `b` (backend clock `b + (v0 - w0)`) at which
+it was still within its TTL, and less than the default retention has passed since that back-fill.
+(`fill` is the time of the LATEST back-fill since the store.) -/
+theorem no_read_after_backfill_retention (cd : Codec) (hcd : ∀ b, cd.dec (cd.enc b) = some b) (ls : List Layer)
+    (h1 : oneLru ls) (h2 : emptyLrus ls) (v0 w0 : Int) (ops : List (Op × List (List Key)))
+    (hok : ∀ o ∈ ops, OpOk o.1) (hc : ∀ o ∈ ops, Coupled o.1) (keys : List Key) (hs : List (List Key)) :
+    ∀ kv ∈ (final cd ls v0 w0 ops).1.read cd keys hs,
+      ∃ dV dW fl, (final cd ls v0 w0 ops).2.spec.get kv.1 = .present kv.2 dV dW fl ∧
+        ((final cd ls v0 w0 ops).2.V < dV ∨
+          ∃ b, fl = some b ∧ b + (v0 - w0) < dV ∧ (final cd ls v0 w0 ops).2.V < b + (v0 - w0) + (cfgOf ls).dttl) :=
+  PfC19.run_backfill_retention cd hcd ls h1 h2 v0 w0 ops hok hc keys hs
+
+/-- Hence, on one clock, nothing is returned `max defaultTTL 0` or more after the TTL of its last
+store ran out, however often it is read or back-filled. -/
 theorem no_read_after_hard_deadline (cd : Codec) (hcd : ∀ b, cd.dec (cd.enc b) = some b) (ls : List Layer)
     (h1 : oneLru ls) (h2 : emptyLrus ls) (v0 w0 : Int) (ops : List (Op × List (List Key)))
     (hok : ∀ o ∈ ops, OpOk o.1) (hc : ∀ o ∈ ops, Coupled o.1) (keys : List Key) (hs : List (List Key)) :
     ∀ kv ∈ (final cd ls v0 w0 ops).1.read cd keys hs,
-      ∃ dV dW, (final cd ls v0 w0 ops).2.spec.get kv.1 = .present kv.2 dV dW ∧
+      ∃ dV dW fl, (final cd ls v0 w0 ops).2.spec.get kv.1 = .present kv.2 dV dW fl ∧
         (final cd ls v0 w0 ops).2.V < dV + max (cfgOf ls).dttl 0 :=
   PfC19.run_hard_deadline cd hcd ls h1 h2 v0 w0 ops hok hc keys hs
 
 /-- The hypotheses are satisfiable and the statements are not vacuous: LRU (size 1, default TTL 5)
-over versioned over compression, codec `enc b = 0 :: b`; store, evict by another store, step both
-clocks past the TTL of the first store... the first key reads back through the back-fill before
-that, and no longer afterwards. -/
+over versioned over compression, codec `enc b = 0 :: b`. -/
 def exCodec : Codec := ⟨fun b => 0 :: b, fun b => match b with | 0 :: r => some r | _ => none⟩
 def exStack : List Layer := [.lru 1 5 [], .ver 3, .snap]
+/-- store `a` with TTL 3, push it out of the in-memory layer by storing `b`, read `a` at time 2 (back-fill). -/
 def exOps : List (Op × List (List Key)) :=
-  [(.set [97] [1, 2] 2, []), (.set [98] [3] 2, []), (.advBoth 1, []), (.get [[97]], [])]
+  [(.set [97] [1, 2] 3, []), (.set [98] [3] 3, []), (.advBoth 2, []), (.get [[97]], [])]
+/-- store `a` with TTL 3, read it at time 2 from the in-memory layer (no back-fill). -/
+def exOpsHit : List (Op × List (List Key)) :=
+  [(.set [97] [1, 2] 3, []), (.advBoth 2, []), (.get [[97]], [])]
 
 example : (∀ b, exCodec.dec (exCodec.enc b) = some b) ∧ exCodec.dec [1] = none ∧ oneLru exStack ∧ emptyLrus exStack ∧
-    (∀ o ∈ exOps, OpOk o.1) ∧ (∀ o ∈ exOps, Coupled o.1) :=
-  ⟨fun _ => rfl, rfl, trivial, ⟨rfl, trivial⟩, by simp [exOps, OpOk], by simp [exOps, Coupled]⟩
+    (∀ o ∈ exOps, OpOk o.1) ∧ (∀ o ∈ exOps, Coupled o.1) ∧ (∀ o ∈ exOpsHit, OpOk o.1) ∧ (∀ o ∈ exOpsHit, Coupled o.1) :=
+  ⟨fun _ => rfl, rfl, trivial, ⟨rfl, trivial⟩, by simp [exOps, OpOk], by simp [exOps, Coupled],
+   by simp [exOpsHit, OpOk], by simp [exOpsHit, Coupled]⟩
 
-/-- ... on that run: the back-filled copy is served until its default retention (fill time 1 + 5) ends,
-although the backend's entry expired at 2; from time 6 on nothing is returned. -/
-example : (final exCodec exStack 0 0 (exOps ++ [(.advBoth 4, [])])).1.read exCodec [[97]] [] = [([97], [1, 2])] ∧
+/-- The "no back-fill" hypothesis of `no_read_after_ttl_without_backfill` is necessary (the
+reviewer's run): stored at 0 with TTL 3 under retention 5, evicted, back-filled by the read at time
+2 — the judge records `fill = some 2`, in-memory deadline 7 — the entry is still served at time 6,
+after store + max(3, 5) = 5, and no longer at time 7 = back-fill + retention. This is what
+`cache/lru.go` does (`ExpiresAt: now.Add(l.defaultTTL)` in the back-fill). -/
+theorem backfill_outlives_literal_bound_witness :
+    (final exCodec exStack 0 0 exOps).2.spec.get [97] = .present [1, 2] 3 7 (some 2) ∧
+    (final exCodec exStack 0 0 (exOps ++ [(.advBoth 4, [])])).2.V = 6 ∧
+    (final exCodec exStack 0 0 (exOps ++ [(.advBoth 4, [])])).1.read exCodec [[97]] [] = [([97], [1, 2])] ∧
     (final exCodec exStack 0 0 (exOps ++ [(.advBoth 5, [])])).1.read exCodec [[97]] [] = [] := by
-  simp [final, runTo, exOps, exStack, step, jstep, setL, getL, St.read, St.fresh, JSt.fresh, addVersion,
-    versionPrefix, digits, atSign, lruAdd, aPut, aDel, Backend.set, exCodec, lruScan, aGet, Backend.getMulti,
-    Backend.live, Backend.advance, orderBy, rank, lruAddAll, removeVersion, trimPrefix, decodeAll, cfgOf, firstLru,
-    bump, Spec.get]
+  simp [final, runTo, exOps, exStack, step, jstep, setL, getL, St.read, St.fresh, JSt.fresh, PfC19.addVersion_three,
+    PfC19.removeVersion_three, lruAdd, aPut, aDel, Backend.set, exCodec, lruScan, aGet, Backend.getMulti,
+    Backend.live, Backend.advance, orderBy, rank, lruAddAll, decodeAll, cfgOf, firstLru,
+    refill, servedLocally, lruKey, heldKeys, upVers, Spec.get]
+
+/-- ... whereas a read served by the in-memory layer re-arms nothing: stored at 0 with TTL 3 under
+retention 5 and read at time 2 from the in-memory layer (`fill` stays `none`), the entry is served
+at time 2 and gone at time 3 = store + TTL, well before store + retention. -/
+theorem lru_hit_does_not_rearm_witness :
+    (final exCodec exStack 0 0 exOpsHit).2.spec.get [97] = .present [1, 2] 3 3 none ∧
+    (final exCodec exStack 0 0 exOpsHit).1.read exCodec [[97]] [] = [([97], [1, 2])] ∧
+    (final exCodec exStack 0 0 (exOpsHit ++ [(.advBoth 1, [])])).1.read exCodec [[97]] [] = [] := by
+  simp [final, runTo, exOpsHit, exStack, step, jstep, setL, getL, St.read, St.fresh, JSt.fresh, PfC19.addVersion_three,
+    lruAdd, aPut, aDel, Backend.set, exCodec, lruScan, aGet, Backend.getMulti,
+    Backend.live, Backend.advance, orderBy, rank, lruAddAll, decodeAll, cfgOf, firstLru,
+    refill, servedLocally, lruKey, heldKeys, upVers, Spec.get]
+
+/-- The statements above are safety statements; they are not met by a cache that never returns
+anything: through ANY stack (any number and order of layers, any contents, any in-memory size
+including 0) a store with a positive TTL is readable at once, byte for byte. -/
+theorem store_is_readable (cd : Codec) (hcd : ∀ b, cd.dec (cd.enc b) = some b) (wall : Int) (ls : List Layer)
+    (be : Backend) (k : Key) (v : Bytes) (ttl : Int) (hs : List (List Key)) (httl : 0 < ttl) :
+    (getL cd wall (setL cd wall ls be k v ttl).1 (setL cd wall ls be k v ttl).2 [k] hs).2.1 = [(k, v)] :=
+  PfC19.read_your_write cd hcd wall ls be k v ttl hs httl
 
 /-! ### Add -/
 
@@ -152,6 +256,16 @@ theorem add_stores_when_absent (cd : Codec) (wall : Int) (ls : List Layer) (be :
   · rw [h] at h1; simp at h1
   · exact h2
 
+/-- After any run, `Add` through the stack is refused exactly when the judge's entry for the key is
+within its TTL on the backend's clock (`liveV`): a refusal is always justified by a live entry the
+client stored, and an acceptance never overwrites one. -/
+theorem add_refused_iff_live (cd : Codec) (hcd : ∀ b, cd.dec (cd.enc b) = some b) (ls : List Layer)
+    (h1 : oneLru ls) (h2 : emptyLrus ls) (v0 w0 : Int) (ops : List (Op × List (List Key)))
+    (hok : ∀ o ∈ ops, OpOk o.1) (k : Key) (v : Bytes) (ttl : Int) :
+    (step cd (final cd ls v0 w0 ops).1 (.add k v ttl) []).2 = .added (!liveV (final cd ls v0 w0 ops).2 k) := by
+  simp only [step]
+  rw [PfC19.run_add cd hcd ls h1 h2 v0 w0 ops hok k v ttl]
+
 /-! ### Corrupt entries -/
 
 /-- Through a compression layer only decodings of what the layers below returned come back; an
@@ -168,6 +282,13 @@ theorem corrupt_entry_dropped (cd : Codec) (wall : Int) (ls : List Layer) (be : 
 theorem corrupt_backend_entry (cd : Codec) (wall : Int) (be : Backend) (k : Key) (g : Bytes) (hs : List (List Key))
     (hl : be.live k = some g) (hg : cd.dec g = none) : getL cd wall [.snap] be [k] hs = ([.snap], [], true) :=
   PfC19.corrupt_backend_entry cd wall be k g hs hl hg
+
+/-- ... also underneath an in-memory layer that does not hold the key: the read goes through to the
+backend, the undecodable entry is dropped, the error is passed up, and nothing is back-filled. -/
+theorem corrupt_backend_entry_under_lru (cd : Codec) (wall : Int) (sz : Nat) (d : Int) (e : KV) (be : Backend) (k : Key)
+    (g : Bytes) (hs : List (List Key)) (hm : aGet k e = none) (hl : be.live k = some g) (hg : cd.dec g = none) :
+    getL cd wall [.lru sz d e, .snap] be [k] hs = ([.lru sz d e, .snap], [], true) :=
+  PfC19.corrupt_backend_entry_under_lru cd wall sz d e be k g hs hm hl hg
 
 /-! ### Server placement is stable -/
 
@@ -197,5 +318,46 @@ theorem pick_stable {α} (next : UInt64 → Int → Int) (hnext : ∀ k b, b < n
 /-- the hypothesis on `next` is satisfiable and the loop is not vacuous: with `next k b = b + 2`
 the buckets for n = 1..5 are 0,0,2,2,4. -/
 example : (List.range 5).map (fun i => jump (fun _ b => b + 2) 7 (i + 1)) = [0, 0, 2, 2, 4] := by decide
+
+/-- the multiplier of the float expression is at least 1 in exact arithmetic:
+`(key >> 33) + 1 ≤ 2^31`, so `(b + 1) * (2^31 / ((key >> 33) + 1)) ≥ b + 1 > b` (the IEEE rounding of
+the expression itself is executed in the oracle only and is not part of any proof). -/
+theorem jump_multiplier_ge_one (key : UInt64) : (key >>> 33).toNat + 1 ≤ 2 ^ 31 :=
+  PfC19.shift33_le key
+
+/-! ### The naturally sorted server list -/
+
+/-- `SetServers` sorts a permutation of what it was given. -/
+theorem natSort_is_permutation (l : List Bytes) : (natSort l).Perm l := PfC19.natSort_perm l
+
+/-- natsort's comparison is not a strict order: `Compare a a = true`, and names that differ only in
+leading zeros of a digit run compare "less" both ways — the sorted order of `s1`, `s01` then depends
+on the order in which they were given, and so does the placement. -/
+theorem natural_order_not_strict_witness :
+    natLess [115, 49] [115, 49] = true ∧
+    natLess [115, 49] [115, 48, 49] = true ∧ natLess [115, 48, 49] [115, 49] = true ∧
+    natSort [[115, 49], [115, 48, 49]] ≠ natSort [[115, 48, 49], [115, 49]] ∧
+    natOrdered [[115, 49], [115, 48, 49]] = false := by
+  decide
+
+/-- On every name list on which `natLess` relates two distinct names in exactly one direction and
+is transitive (`natOrdered`, decidable), the sorted list is the same for every order in which the
+names are given (duplicates allowed) ... -/
+theorem natSort_order_independent (l l' : List Bytes) (h : natOrdered l = true) (hp : l.Perm l') :
+    natSort l = natSort l' :=
+  PfC19.natSort_order_independent h hp
+
+/-- ... hence the server chosen for a key is a function of the key and the SET of configured
+names, not of the order in the configuration. -/
+theorem placement_order_independent (next : UInt64 → Int → Int) (l l' : List Bytes) (h : natOrdered l = true)
+    (hp : l.Perm l') (hash : UInt64) : pick next (natSort l) hash = pick next (natSort l') hash := by
+  rw [PfC19.natSort_order_independent h hp]
+
+/-- the condition holds on ordinary name lists: `s10`, `s2`, `s1`, `s2` (a duplicate = double weight)
+is ordered, and sorts to `s1, s2, s2, s10` from either order. -/
+example : natOrdered [[115, 49, 48], [115, 50], [115, 49], [115, 50]] = true ∧
+    natSort [[115, 49, 48], [115, 50], [115, 49], [115, 50]] = [[115, 49], [115, 50], [115, 50], [115, 49, 48]] ∧
+    natSort [[115, 50], [115, 49], [115, 50], [115, 49, 48]] = [[115, 49], [115, 50], [115, 50], [115, 49, 48]] := by
+  decide
 
 end PC19
